@@ -1,6 +1,8 @@
 package main
 
 import (
+	"errors"
+	"sync/atomic"
 	"context"
 	"encoding/binary"
 	"fmt"
@@ -23,10 +25,13 @@ type c07Query struct {
 }
 
 func runC07(r *Run) {
-	r.Result.Rule = "scenario = 1..6 concurrently outstanding queries (same and different destinations) + a stream of injected datagrams: genuine reply, adjacent/prefix/extended/empty t, right t from other port / other IP / v4-mapped form, duplicates, replays after completion, y in {r,e,junk,absent}; each datagram carries a unique marker so the completed query identifies its datagram; non-trivial = scenario with >= 2 outstanding queries and >= 1 near-miss datagram"
+	r.Result.Rule = "scenario = 1..6 concurrently outstanding queries (same and different destinations) + a stream of injected datagrams: genuine reply, adjacent/prefix/extended/empty t, right t from other port / other IP / v4-mapped form, duplicates, replays after completion, y in {r,e,junk,absent}; each datagram carries a unique marker so the completed query identifies its datagram; + give-up histories: a query whose datagram is held in the socket write is cancelled (or its write fails) with its genuine reply arriving before/after the cancellation, then a later query that nobody answers must stay pending and complete only with its own reply; non-trivial = scenario with >= 2 outstanding queries and >= 1 near-miss datagram"
 	nScen := r.n(150, 3000)
 	for sc := 0; sc < nScen; sc++ {
 		r.c07Scenario(sc)
+	}
+	for i := 0; i < r.n(60, 1000); i++ {
+		r.c07LateReply(i)
 	}
 	// varint issuer: differential on many counters
 	for i := 0; i < r.n(3000, 100000); i++ {
@@ -271,6 +276,155 @@ func (r *Run) c07Scenario(sc int) {
 	r.count(fmt.Sprint(events), nq >= 2 && nearMiss >= 1)
 	r.Result.TracesValidated++
 	if sc < 2 {
+		r.sample(events)
+	}
+}
+
+
+// State left behind by a finished query must not complete a later one. Query A's datagram is held in
+// the socket write; A is cancelled and its genuine reply arrives in either order (the transaction is
+// still registered while the sender is blocked); the write is released and A returns. Query B (same
+// or another destination) is then issued and nobody answers it: it must stay pending, and complete
+// only with its own reply.
+func (r *Run) c07LateReply(i int) {
+	conn := newFakeConn(nil)
+	cfg := baseConfig(conn)
+	cfg.QueryResendDelay = func() time.Duration { return time.Hour }
+	s, err := dht.NewServer(cfg)
+	if err != nil {
+		panic(err)
+	}
+	defer s.Close()
+	gate := make(chan struct{})
+	var hold atomic.Bool
+	var held atomic.Pointer[[]byte]
+	conn.onWrite = func(w written) {
+		if hold.Load() {
+			b := append([]byte{}, w.B...)
+			held.Store(&b)
+			<-gate
+		}
+	}
+	failing := r.rng.Intn(4) == 0
+	if failing {
+		var once atomic.Bool
+		conn.failWrite = func(n int, p []byte, addr net.Addr) error {
+			if hold.Load() && !once.Swap(true) {
+				b := append([]byte{}, p...)
+				held.Store(&b)
+				<-gate
+				return errors.New("sendto: network is unreachable")
+			}
+			return nil
+		}
+	}
+	var events []string
+	dstA := udp(net.IP{198, 51, 100, byte(1 + r.rng.Intn(200))}, 7000)
+	dstB := dstA
+	if r.rng.Intn(3) != 0 {
+		dstB = udp(net.IP{198, 51, 101, byte(1 + r.rng.Intn(200))}, 7001)
+	}
+	rounds := 1 + r.rng.Intn(3)
+	for k := 0; k < rounds; k++ {
+		hold.Store(true)
+		ctxA, cancelA := context.WithCancel(context.Background())
+		doneA := make(chan dht.QueryResult, 1)
+		held.Store(nil)
+		go func() { doneA <- s.Query(ctxA, dht.NewAddr(dstA), "ping", dht.QueryInput{NumTries: 1}) }()
+		// wait until the sender is inside the socket write
+		if !waitFor(func() bool { return held.Load() != nil }, 5*time.Second) {
+			r.violation("query did not reach the socket write", events)
+			cancelA()
+			hold.Store(false)
+			close(gate)
+			return
+		}
+		hv, _, herr := bdecode(*held.Load())
+		if herr != nil {
+			r.violation("query datagram is not bencode", events)
+			cancelA()
+			hold.Store(false)
+			close(gate)
+			return
+		}
+		tA, _ := hv.get("t").str()
+		var mA [20]byte
+		r.rng.Read(mA[:])
+		order := r.rng.Intn(3)
+		if order == 0 {
+			cancelA()
+			time.Sleep(time.Duration(r.rng.Intn(300)) * time.Microsecond)
+		}
+		if order != 2 {
+			conn.inject(mkReply(string(tA), bD("id", bB(mA[:]))).enc(), dstA)
+			conn.waitIdle(5 * time.Second)
+			time.Sleep(100 * time.Microsecond)
+		}
+		if order == 1 {
+			cancelA()
+		}
+		if order == 2 {
+			cancelA()
+		}
+		hold.Store(false)
+		gate <- struct{}{}
+		var resA dht.QueryResult
+		select {
+		case resA = <-doneA:
+		case <-time.After(5 * time.Second):
+			r.violation("cancelled query did not return", events)
+			return
+		}
+		events = append(events, fmt.Sprintf("query A to %s t=%x held in the socket write (write fails=%v); order=%d (0 cancel,reply; 1 reply,cancel; 2 cancel only); reply marker=%x; A returned err=%v", dstA, tA, failing && k == 0, order, mA[:4], resA.Err))
+		if resA.Err == nil && resA.Reply.R != nil && string(resA.Reply.R.ID[:]) != string(mA[:]) {
+			r.violation("query completed by a datagram other than its own reply", events)
+		}
+		r.hist(fmt.Sprintf("give-up/order%d/failing=%v/A-err=%v", order, failing && k == 0, resA.Err != nil))
+		// B: nobody answers
+		ctxB, cancelB := context.WithCancel(context.Background())
+		doneB := make(chan dht.QueryResult, 1)
+		w0 := conn.numWrites()
+		go func() { doneB <- s.Query(ctxB, dht.NewAddr(dstB), "ping", dht.QueryInput{NumTries: 1}) }()
+		if !waitFor(func() bool { return conn.numWrites() > w0 || len(doneB) > 0 }, 5*time.Second) {
+			r.violation("query sent no datagram", events)
+			cancelB()
+			return
+		}
+		var tB []byte
+		if conn.numWrites() > w0 {
+			tB = parseDgram(conn.writes()[w0]).t
+		}
+		events = append(events, fmt.Sprintf("query B to %s t=%x; no datagram is delivered", dstB, tB))
+		select {
+		case res := <-doneB:
+			what := "query completed without a matching datagram"
+			if res.Err == nil && res.Reply.R != nil && string(res.Reply.R.ID[:]) == string(mA[:]) {
+				what = "query completed by a reply from another address or with another transaction ID (the reply to an earlier, abandoned query)"
+			}
+			r.violation(what, events)
+			cancelB()
+			return
+		case <-time.After(1500 * time.Microsecond):
+		}
+		var mB [20]byte
+		r.rng.Read(mB[:])
+		conn.inject(mkReply(string(tB), bD("id", bB(mB[:]))).enc(), dstB)
+		select {
+		case res := <-doneB:
+			if res.Err != nil || res.Reply.R == nil || string(res.Reply.R.ID[:]) != string(mB[:]) {
+				r.violation("genuine reply did not complete its query with its own contents", events)
+			}
+		case <-time.After(5 * time.Second):
+			r.violation("genuine reply did not complete its query", events)
+		}
+		cancelB()
+	}
+	if st := s.Stats(); st.OutstandingTransactions != 0 {
+		r.violation(fmt.Sprintf("OutstandingTransactions=%d but 0 queries are pending", st.OutstandingTransactions), events)
+	}
+	r.count(fmt.Sprint(events), true)
+	r.Result.TracesValidated++
+	if i < 1 {
 		r.sample(events)
 	}
 }
